@@ -108,7 +108,15 @@ func (attr *Attribute) UnmarshalJSON(data []byte) error {
 		attr.Type = NotaryAssistedT
 		attr.Value = new(NotaryAssisted)
 	default:
-		return errors.New("wrong Type")
+		var t = AttrType(ReservedLowerBound)
+		for t.String() != aj.Type {
+			if t == ReservedUpperBound {
+				return errors.New("wrong Type")
+			}
+			t++
+		}
+		attr.Type = t
+		attr.Value = new(Reserved)
 	}
 	return json.Unmarshal(data, attr.Value)
 }
